@@ -6,7 +6,7 @@ note = sys.argv[4] if len(sys.argv) > 4 else ""
 src = f"{wt}/OUT/{m}"
 meta = json.load(open(f"{src}/meta.json"))
 prop = meta["property"]
-dst = f"/verif/seeded/{prop}-{m}"
+dst = f"/verif/seeded/{prop}-{os.environ.get('SEED_TAG','')}{m}"
 os.makedirs(dst, exist_ok=True)
 shutil.copy(f"{src}/patch.diff", f"{dst}/patch.diff")
 shutil.copy(f"{src}/demo.rs", f"{dst}/demo.rs")
